@@ -66,6 +66,7 @@ use crate::{
     ReadPreambleBytesSnafu, ReadTokenSnafu, ReadUnrecognizedTransferSyntaxSnafu,
     ReadUnsupportedTransferSyntaxSnafu, ReadUnsupportedTransferSyntaxWithSuggestionSnafu,
     UnexpectedTokenSnafu, WithMetaError, WriteDataSetEndSnafu, WriteError,
+    WriteUnsupportedTransferSyntaxSnafu,
 };
 use crate::{FileMetaTableBuilder, meta::FileMetaTable};
 use dicom_core::dictionary::{DataDictionary, DataDictionaryEntry};
@@ -1977,6 +1978,10 @@ where
             .write_sequence(self.into_tokens_with_options(required_options))
             .context(PrintDataSetSnafu)?;
 
+        // the writer was taken by value: this is the last chance
+        // to report a failure of a buffering writer
+        dset_writer.flush().context(PrintDataSetSnafu)?;
+
         Ok(())
     }
 
@@ -2023,6 +2028,13 @@ where
             to.flush().context(WriteDataSetEndSnafu)?;
 
             Ok(())
+        } else if let Codec::Dataset(None) = ts.codec() {
+            // data set adapter needed, but not available
+            WriteUnsupportedTransferSyntaxSnafu {
+                uid: ts.uid(),
+                name: ts.name(),
+            }
+            .fail()
         } else {
             // prepare data set writer
             let mut dset_writer =
@@ -2032,6 +2044,10 @@ where
             dset_writer
                 .write_sequence(self.into_tokens())
                 .context(PrintDataSetSnafu)?;
+
+            // the writer was taken by value: this is the last chance
+            // to report a failure of a buffering writer
+            dset_writer.flush().context(PrintDataSetSnafu)?;
 
             Ok(())
         }
@@ -2054,17 +2070,58 @@ where
     where
         W: Write,
     {
-        // prepare data set writer
-        let mut dset_writer =
-            DataSetWriter::with_ts_cs_options(to, ts, cs, options).context(CreatePrinterSnafu)?;
         let required_options = IntoTokensOptions::new(self.charset_changed);
 
-        // write object
-        dset_writer
-            .write_sequence(self.into_tokens_with_options(required_options))
-            .context(PrintDataSetSnafu)?;
+        match ts.codec() {
+            Codec::Dataset(Some(adapter)) => {
+                // the transfer syntax requires the data set to be adapted
+                // (such as the deflated transfer syntaxes)
+                let mut to = BufWriter::new(to);
+                {
+                    let adapter = adapter.adapt_writer(Box::new(&mut to));
+                    let mut dset_writer =
+                        DataSetWriter::with_ts_cs_options(adapter, ts, cs, options)
+                            .context(CreatePrinterSnafu)?;
 
-        Ok(())
+                    // write object
+                    dset_writer
+                        .write_sequence(self.into_tokens_with_options(required_options))
+                        .context(PrintDataSetSnafu)?;
+
+                    dset_writer.flush().context(PrintDataSetSnafu)?;
+                }
+
+                // see `write_dataset_with_ts_cs`:
+                // the last bytes of the adapter are in the buffer of `to`
+                to.flush().context(WriteDataSetEndSnafu)?;
+
+                Ok(())
+            }
+            Codec::Dataset(None) => {
+                // data set adapter needed, but not available
+                WriteUnsupportedTransferSyntaxSnafu {
+                    uid: ts.uid(),
+                    name: ts.name(),
+                }
+                .fail()
+            }
+            Codec::None | Codec::EncapsulatedPixelData(..) => {
+                // prepare data set writer
+                let mut dset_writer = DataSetWriter::with_ts_cs_options(to, ts, cs, options)
+                    .context(CreatePrinterSnafu)?;
+
+                // write object
+                dset_writer
+                    .write_sequence(self.into_tokens_with_options(required_options))
+                    .context(PrintDataSetSnafu)?;
+
+                // the writer was taken by value: this is the last chance
+                // to report a failure of a buffering writer
+                dset_writer.flush().context(PrintDataSetSnafu)?;
+
+                Ok(())
+            }
+        }
     }
 
     /// Write this object's data set into the given writer,
